@@ -17,7 +17,10 @@
 (***************************************************************************)
 EXTENDS HappyOrder, FiniteSets, TLC
 
-CONSTANTS MaxPerFamily, Patience, LateAfter, InlineLast
+CONSTANTS MaxPerFamily, Patience, LateAfter, InlineLast,
+          Deadline,          \* overall deadline in race intervals (0 = none): an attempt never outlives it, and an attempt
+                             \* started when it has passed fails at once without dialling
+          PassedMeansNone    \* rejected design: an attempt started after the deadline dials as if there were none
 
 Behaviours == {"accept", "refuse", "blackhole"} \cup (IF LateAfter > 0 THEN {"late"} ELSE {})
 Addr == [fam : {"v6", "v4"}, n : 1..MaxPerFamily, beh : Behaviours]
@@ -49,9 +52,15 @@ Slow(a) == a.beh \in {"blackhole", "late"}
 Dur(a) == IF a.beh = "blackhole" THEN Patience ELSE IF a.beh = "late" THEN LateAfter ELSE 0
 Ok(a) == a.beh \in {"accept", "late"}
 Inline == InlineLast /\ next = Len(order)
+Passed == Deadline > 0 /\ now >= Deadline
+Capped == Deadline > 0 /\ ~Passed                     \* the attempt's own timeout is what is left until the deadline
 Spawn == /\ Running /\ ~waiting /\ next <= Len(order) /\ ~Inline
          /\ LET a == order[next] IN
-            IF Slow(a) THEN pending' = pending \cup {[idx |-> next, due |-> now + Dur(a), ok |-> Ok(a)]} /\ inbox' = inbox
+            IF Passed /\ ~PassedMeansNone
+            THEN inbox' = inbox \cup {[idx |-> next, ok |-> FALSE]} /\ pending' = pending       \* TimedOut, nothing dialled
+            ELSE IF Capped /\ now + Dur(a) > Deadline
+            THEN pending' = pending \cup {[idx |-> next, due |-> Deadline, ok |-> FALSE]} /\ inbox' = inbox
+            ELSE IF Slow(a) THEN pending' = pending \cup {[idx |-> next, due |-> now + Dur(a), ok |-> Ok(a)]} /\ inbox' = inbox
             ELSE inbox' = inbox \cup {[idx |-> next, ok |-> Ok(a)]} /\ pending' = pending
          /\ next' = next + 1 /\ waiting' = TRUE
          /\ UNCHANGED <<resolved, order, now, firstErr, result>>
@@ -94,7 +103,10 @@ SetMin(S) == CHOOSE x \in S : \A y \in S : x <= y
 BlackholesBefore(i) == Cardinality({j \in 1..(i - 1) : Slow(order[j])})   \* (attempts that do not answer at once)
 Done == result.done
 \* succeeds iff some address accepts; the socket returned belongs to an address that accepted
-SucceedsIffSomeAccepts == Done => (result.ok <=> Accepting # {})
+\* (under a deadline an accepting address may be reached too late: only "no success without an accepting address" is left)
+SucceedsIffSomeAccepts == Done => ((result.ok => Accepting # {}) /\ (Deadline = 0 => (Accepting # {} => result.ok)))
+\* "before its attempt times out": no attempt succeeds after the overall deadline
+NoSuccessAfterDeadline == (Deadline > 0 /\ Done /\ result.ok) => now <= Deadline
 WinnerAccepted == (Done /\ result.ok) => result.idx \in Accepting
 \* on failure an error of one of the attempts is returned (0 = "no addresses": only for the empty list)
 HonestFailure == (Done /\ ~result.ok) => (IF order = <<>> THEN result.idx = 0 ELSE result.idx \in 1..Len(order))
